@@ -351,6 +351,7 @@ class BGP(protocol.Protocol):
         """
         try:
             reactor.callFromThread(self.write_tcp_thread, msg)
+            self.msg_sent_stat['Updates'] += 1
             return True
         except Exception as e:
             LOG.error(e)
